@@ -112,7 +112,7 @@ class Effect:
     def __init__(self, tr, d, node):
         self.name = d["call"]
         self.var = attr_var(self.name)
-        known = {"call", "args", "returns", "event", "history", "raises", "new", "sets", "self_fields", "comment"}
+        known = {"call", "args", "returns", "event", "history", "raises", "new", "sets", "self_fields", "receiver", "comment"}
         if set(d) - known:
             raise Unsupported("effect %s: unknown keys %s in the spec" % (self.name, sorted(set(d) - known)), node, tr.qual)
         self.args = []
@@ -131,13 +131,17 @@ class Effect:
         self.event, self.history, self.raises, self.new = (bool(d.get(k)) for k in ("event", "history", "raises", "new"))
         self.sets = list(d.get("sets", []))
         self.self_fields = list(d.get("self_fields", []))
+        # a method of a LOCAL object of an opaque type (conn.commit()): the object is the oracle's first argument
+        self.receiver = tr.ptype(d["receiver"]) if d.get("receiver") else None
+        if self.receiver is not None and (self.self_fields or self.name != "<%s>.%s" % (self.receiver, self.name.split(".")[-1])):
+            raise Unsupported("effect %s: a receiver effect is named `<TYPE>.<method>` with its receiver's type" % self.name, node, tr.qual)
         if self.new and self.ret not in tr.records:
             raise Unsupported("effect %s: `new` needs a record type as result" % self.name, node, tr.qual)
         if self.sets and self.ret is not None:
             raise Unsupported("effect %s: `sets` and `returns` together" % self.name, node, tr.qual)
 
     def arg_types(self, tr, recv_rec=None):
-        out = []
+        out = [coq_type(self.receiver)] if self.receiver is not None else []
         for a in self.args:
             if a[0] == "value":
                 out.append(coq_type(a[1]))
@@ -178,6 +182,13 @@ class EffTranslator(base.FnTranslator):
         un = spec.get("untracked", {})
         self.untracked_targets, self.untracked_sources = list(un.get("targets", [])), list(un.get("sources", []))
         self.silent = list(spec.get("silent", []))          # logging calls: like print
+        # expressions the spec names instead of translating (their text is pinned): a history-dependent oracle of the
+        # listed locals, `"terms": {"<text>": {"name": "row", "args": ["individual"], "type": "ROW"}}`
+        self.terms = {}
+        for txt, d in spec.get("terms", {}).items():
+            if set(d) != {"name", "args", "type"} or not re.fullmatch(r"[a-z]\w*", d["name"]):
+                raise Unsupported("term %r in the spec" % txt, node, self.qual)
+            self.terms[txt] = (d["name"], list(d["args"]), self.ptype(d["type"]))
         self.submit = spec.get("submit")                    # the joblib idiom, see submit_stmt
         self.volatile = {r: list(fs) for r, fs in spec.get("volatile", {}).items()}
         for r, fs in self.volatile.items():
@@ -216,25 +227,40 @@ class EffTranslator(base.FnTranslator):
         self.nexc = 0
         self.abstracted = {}
         self.submit_type = None
+        self.used_terms = []
+        self.term_env = {}
 
     def evlog_elem(self):
         return "ev"
+
+    def eff_name(self, func, env=None):
+        """the declared effect a call goes to (its key in self.effects), or None: by dotted name / `super().m`, or - a
+        method of a local object of an opaque type R - by `<R>.m` (without an environment: of any such type)"""
+        nm = call_name(func)
+        if nm in self.effects:
+            return nm
+        if isinstance(func, ast.Attribute) and isinstance(func.value, ast.Name):
+            for key in self.effects:
+                mt = re.fullmatch(r"<(\w+)>\.(\w+)", key)
+                if mt and mt.group(2) == func.attr and (env is None or env.get(func.value.id) == mt.group(1)):
+                    return key
+        return None
 
     def hidden_assigned(self, stmts):
         """the event log changes wherever an observable effect is called / an abstracted loop stands"""
         out = []
         for st in stmts:
             for nd in ast.walk(st):
-                if isinstance(nd, ast.Call) and call_name(nd.func) in self.events and "evlog" not in out:
+                if isinstance(nd, ast.Call) and self.eff_name(nd.func) in self.events and "evlog" not in out:
                     out.append("evlog")
                 if isinstance(nd, ast.For) and self.loop_header(nd) in self.abstract_loops and "evlog" not in out:
                     out.append("evlog")
                 if self.submit and isinstance(nd, ast.Call) and isinstance(nd.func, ast.Call) \
                         and dotted(nd.func.func) == self.submit.get("pool") and "evlog" not in out:
                     out.append("evlog")
-                if isinstance(nd, ast.Call) and call_name(nd.func) in self.effects:
+                if isinstance(nd, ast.Call) and self.eff_name(nd.func) in self.effects:
                     # attributes that an effect assigns (`sets`)
-                    for a in self.effects[call_name(nd.func)].sets:
+                    for a in self.effects[self.eff_name(nd.func)].sets:
                         if attr_var(a) not in out:
                             out.append(attr_var(a))
         return out
@@ -266,6 +292,9 @@ class EffTranslator(base.FnTranslator):
         for hdr, nm in self.abstract_loops.items():
             if hdr in self.abstracted:
                 out.append(("ev_loop_" + nm, "%s -> ev" % coq_type(self.abstracted[hdr])))
+        for txt, (name, args, ty) in self.terms.items():
+            if name in self.used_terms:
+                out.append(("t_" + name, " -> ".join(["(list ev)"] + [coq_type(self.term_arg_type(a)) for a in args] + [coq_type(ty)])))
         if self.submit_type is not None:
             out.append(("ev_submit", "(list %s) -> ev" % coq_type(self.submit_type)))
         for e in self.effects.values():
@@ -277,6 +306,9 @@ class EffTranslator(base.FnTranslator):
                 out.append(("o_" + e.var, " -> ".join((["(list ev)"] if e.history else [])
                                                       + e.arg_types(self, self.recv_rec.get(e.name)) + [rt])))
         return out
+
+    def term_arg_type(self, a):
+        return self.term_env.get(a)
 
     def effect_result_type(self, e):
         if e.sets:
@@ -294,6 +326,23 @@ class EffTranslator(base.FnTranslator):
 
     # -- expressions --------------------------------------------------------------------------
     def _expr(self, n, env, want):
+        if self.terms and isinstance(n, (ast.List, ast.Call, ast.Dict, ast.Tuple, ast.BinOp, ast.Subscript, ast.Attribute)) \
+                and ast.unparse(n) in self.terms:
+            name, args, ty = self.terms[ast.unparse(n)]
+            if self.pre is None or "evlog" not in env:
+                raise self.err("named term outside a statement context / without an event log", n)
+            cs = []
+            for a in args:
+                if a not in env or env[a] in ("obj", "fixed"):
+                    raise self.err("named term over %r, which is not a value bound here" % a, n)
+                if self.term_env.setdefault(a, env[a]) != env[a]:
+                    raise self.err("named term over %r with two types" % a, n)
+                cs.append(mangle(a))
+            if name not in self.used_terms:
+                self.used_terms.append(name)
+            x = self.fresh()
+            self.pre.append(("let", x, "(%s)" % " ".join(["t_" + name, "evlog"] + cs)))
+            return x, ty
         if isinstance(n, ast.Attribute) and dotted(n) in self.constants:
             k = dotted(n)
             head = k.split(".")[0]
@@ -322,7 +371,7 @@ class EffTranslator(base.FnTranslator):
         return code
 
     def call(self, n, env, want):
-        f = call_name(n.func)
+        f = self.eff_name(n.func, env) or call_name(n.func)
         if f is not None and f.startswith("super().") and ("super" in env or "super" in self.shadowed_extra):
             raise self.err("the name super is rebound", n)
         if f in ("all", "any") and f not in env:
@@ -358,7 +407,7 @@ class EffTranslator(base.FnTranslator):
         # the base class joins the event log through an `if` when it sees a call of an observable oracle by its dotted
         # name; `super().m(...)` has none: no join, the general scheme threads the log
         for nd in ast.walk(s):
-            if isinstance(nd, ast.Call) and dotted(nd.func) is None and call_name(nd.func) in self.effects:
+            if isinstance(nd, ast.Call) and self.eff_name(nd.func) in self.effects and dotted(nd.func) not in self.events:
                 raise base._NoJoin()
         return super().if_join(s, cond, rest, env, env_a, env_b, ctx, k)
 
@@ -378,9 +427,14 @@ class EffTranslator(base.FnTranslator):
         if self.pre is None:
             raise self.err("effect %s outside a statement context" % e.name, n)
         head = e.name.split(".")[0]
-        if head in env and env[head] not in ("obj",) and not (e.self_fields and env[head] in self.records):
-            raise self.err("call through the local name %r" % head, n)
         cs = []
+        if e.receiver is not None:
+            recv = n.func.value.id
+            if env.get(recv) != e.receiver or e.receiver not in self.opaque:
+                raise self.err("receiver of %s is not a local of the opaque type %s" % (e.name, e.receiver), n)
+            cs.append(mangle(recv))
+        elif head in env and env[head] not in ("obj",) and not (e.self_fields and env[head] in self.records):
+            raise self.err("call through the local name %r" % head, n)
         for a, spec in zip(n.args, e.args):
             if spec[0] == "value":
                 cs.append(self.expr(a, env, spec[1])[0])
@@ -485,7 +539,7 @@ class EffTranslator(base.FnTranslator):
             for nd in ast.walk(st):
                 if isinstance(nd, ast.Raise):
                     return True
-                if isinstance(nd, ast.Call) and call_name(nd.func) in self.effects and self.effects[call_name(nd.func)].raises:
+                if isinstance(nd, ast.Call) and self.eff_name(nd.func) in self.effects and self.effects[self.eff_name(nd.func)].raises:
                     return True
         return False
 
@@ -540,7 +594,7 @@ class EffTranslator(base.FnTranslator):
         if isinstance(s, ast.While) and self.hidden_assigned(s.body):
             raise self.err("observable effects inside a while loop", s)
         if isinstance(s, ast.Expr) and isinstance(s.value, ast.Call):
-            f = call_name(s.value.func)
+            f = self.eff_name(s.value.func, env) or call_name(s.value.func)
             if f is not None and f.startswith("super().") and ("super" in env or "super" in self.shadowed_extra):
                 raise self.err("the name super is rebound", s)
             if (f == "print" and "print" not in env) or (f in self.silent and f not in self.effects):
@@ -573,8 +627,8 @@ class EffTranslator(base.FnTranslator):
             if isinstance(tgt, (ast.Attribute, ast.Subscript)) and attr_key(tgt) and attr_key(tgt).split(".")[0] in self.owned \
                     and attr_key(tgt) not in [a for a, _ in self.writes]:
                 return self.owned_write(s, tgt, rest, env, ctx, k)
-            if isinstance(tgt, ast.Name) and isinstance(s.value, ast.Call) and call_name(s.value.func) in self.effects \
-                    and self.effects[call_name(s.value.func)].new:
+            if isinstance(tgt, ast.Name) and isinstance(s.value, ast.Call) and self.eff_name(s.value.func, env) in self.effects \
+                    and self.effects[self.eff_name(s.value.func, env)].new:
                 # the local owns a new object: field assignments are functional updates until it is used as a value
                 code = super().block(stmts[:1], env, ctx, lambda e: self.block_owned(tgt.id, s, rest, e, ctx, k))
                 return code
@@ -794,8 +848,8 @@ class EffTranslator(base.FnTranslator):
         if base.has_node(s.body, (ast.Return, ast.Break, ast.Raise, ast.Try)) or self.can_raise(s.body):
             raise self.err("abstracted loop that can be left early (return / break / raise)", s)
         for nd in ast.walk(ast.Module(body=s.body, type_ignores=[])):
-            if isinstance(nd, ast.Call) and call_name(nd.func) in self.effects:
-                raise self.err("abstracted loop that calls the effect %s" % call_name(nd.func), nd)
+            if isinstance(nd, ast.Call) and self.eff_name(nd.func) in self.effects:
+                raise self.err("abstracted loop that calls the effect %s" % self.eff_name(nd.func), nd)
         # the body may only assign fields of its loop variable and its own locals
         outer = set(env) - {"evlog"}
         for v in base.assigned_names(s.body):
